@@ -271,8 +271,7 @@ static Result run_box(const Case &c) {
     size_t bytes_before = __sanitizer_get_current_allocated_bytes();
     int d = liberasurecode_instance_create((unsigned)g.backend, &a);
     size_t bytes_after_create = __sanitizer_get_current_allocated_bytes();
-    r.cls(d > 0 ? "accepted" : "refused");
-    r.cls(supported_shape ? "shape_supported" : "shape_unsupported");
+    struct Tag { Result &r; bool acc, sup; ~Tag() { r.cls(acc ? "accepted" : "refused"); r.cls(sup ? "shape_supported" : "shape_unsupported"); } } tag{r, d > 0, supported_shape};   // classes are added on return (no allocation inside the measured region)
     bool near_boundary = g.k <= 1 || g.m <= 1 || (g.k + g.m >= 31 && g.k + g.m <= 33) || g.w == 4 || g.w == 7 || g.w == 64 || g.w == -1;
     r.nontrivial = near_boundary;
     if (d == 0) { r.fail("create returned 0"); return r; }
@@ -297,7 +296,7 @@ static Result run_box(const Case &c) {
         for (int i = 0; i < n; i++) frs.push_back(&s.frags[i]);
         { FragSet fset; fset.build(frs, {}); DecodeOut o = decode(d, fset, s.fraglen, 0);
           if (o.rc != 0 || o.out != data) r.fail("decode of the complete stripe failed or returned wrong data (rc=" + std::to_string(o.rc) + ")"); }
-        if (real) {
+        if (real && len == lens[1]) {
             // fragment lists longer than k+m (and longer than 32 entries) are legal: duplicates are allowed
             for (int total : {n + 1, 33, 70}) for (int force = 0; force < 2; force++) {
                 std::vector<const std::vector<uint8_t> *> lf;
@@ -335,8 +334,9 @@ static Result run_box(const Case &c) {
         if (rc != 0) r.fail("fragments_needed failed rc=" + std::to_string(rc) + " on an accepted instance");
     }
     if (liberasurecode_instance_destroy(d) != 0) r.fail("destroy failed");
-    // full LSan check for every accepted configuration near a boundary and a deterministic 1/8 of the rest
-    if (near_boundary || ((g.k * 31 + g.m * 7 + g.hd * 3 + g.w + g.backend) % 8) == 0) leak_free(r, "full cycle");
+    // LeakSanitizer decides; the stop-the-world check is skipped only when the allocator's live byte count is exactly
+    // what it was before create (nothing can have leaked then), plus a deterministic 1/16 sample regardless
+    if (!r.ok || __sanitizer_get_current_allocated_bytes() != bytes_before || ((g.k * 31 + g.m * 7 + g.hd * 3 + g.w + g.backend) % 16) == 0) leak_free(r, "full cycle");
     return r;
 }
 static const int WS[] = {-1, 0, 4, 7, 8, 16, 32, 64};
